@@ -53,7 +53,9 @@ def run_reuse(c, P):
         ck = dict(poll=1.0, ping_rate=0, ping_timeout=None, close_timeout=P.get('close_timeout', 5.0), auto_pong=True)
         quiet2 = P.get('quiet', 8)
     compress = ending in ('compressed-then-eof', 'compressed-then-plain') or P.get('compress', False)
-    ext = b'Sec-WebSocket-Extensions: permessage-deflate\r\n' if (compress and ending != 'compressed-then-plain') else b''
+    ext_params = P.get('ext_params', '')          # e.g. '; client_no_context_takeover' - the same header on both connections
+    ext = (b'Sec-WebSocket-Extensions: permessage-deflate' + ext_params.encode() + b'\r\n') if (compress and ending != 'compressed-then-plain') else b''
+    client_nt = 'client_no_context_takeover' in ext_params
     # ---------------- world A: the reused object
     w = new_world()
     s1 = [c.byte('x%d' % i) for i in range(N1)]
@@ -195,7 +197,7 @@ def run_reuse(c, P):
         # the peer of connection 2 is a NEW server: its inflater starts without history and must restore what the
         # reused object sends (a compressor carried over from connection 1 would refer to history the peer never saw)
         from .deflate import RefPeerInflater
-        infl = RefPeerInflater(c, 15, False)
+        infl = RefPeerInflater(c, 15, client_nt)
         comp_frames = [f for f in frames_of(c, w, sock2.id) if f[0] == 2]
         if len(comp_frames) != len(sent_c[2]):
             c.fail('C17: reconnect wrote %d data frames for %d sends' % (len(comp_frames), len(sent_c[2])))
